@@ -35,28 +35,34 @@ PROPS = {
         "HTTP version, message sequences with size strata and zero-valued messages) executed under a seeded schedule with adversarial "
         "segmentation/windows/flushing and poisoned LIFO/FIFO pools; distinct = distinct scheduler-log hash (sequence of chosen operations and "
         "their parameters) among runs in which the scheduler had >= 2 candidates at some step",
-        4000, 400000),
+        16000, 400000),
     "C02": e2e(
         "each run = one seeded call whose handler returns an error (code 1..16, message class, 0..3 details, metadata multimap; plain errors; "
         "NewError(code,nil)) after k messages, possibly before draining the request, under a seeded schedule/segmentation; distinct = distinct "
         "scheduler-log hash among runs with >= 2 candidates at some step",
-        4000, 300000),
+        16000, 300000),
     "C11": e2e(
         "each run = one seeded call with generated request-header, response-header and response-trailer multimaps (multi-valued keys, -Bin keys) "
         "x {success, error before first message, error after messages}; distinct = distinct scheduler-log hash among runs with >= 2 candidates",
-        4000, 300000),
+        16000, 300000),
     "C14": e2e(
         "each run = one seeded client program over {Send, CloseRequest, Receive, CloseResponse, cancel} (split sender/receiver tasks for bidi) "
         "against a seeded handler program {receive i, send j, drain or not, return nil|error} x protocols x HTTP versions x windows down to 1 byte "
         "x slow-point sets at the library's 17 yield points (none, every single point, every pair, random subsets); checked: bounded termination "
         "(hang = no enabled operation for 120 s of fake time), end-of-request visibility, Send-after-finish errors, outcome equality, sticky Receive "
         "errors, goroutine leaks (stack scan of the bubble) and response-body Close; distinct = distinct scheduler-log hash among runs with >= 2 candidates",
-        4000, 300000),
+        16000, 300000),
     "C15": e2e(
         "each run = one seeded call with exactly one of: a canceller task (its release step is the cancellation instant, so every instant between two "
         "scheduling steps is reachable), a cancel operation between two program operations (incl. before the call), a deadline on the fake clock "
         "(1 us .. 30 ms against handler sleeps), or a handler that returns a context error of its own; handlers sleep / wait for their context; "
         "checked by step number / fake time: operations started after the instant fail with canceled / deadline_exceeded (Send may return io.EOF), "
         "final outcome never success; distinct = distinct scheduler-log hash among runs with >= 2 candidates",
-        4000, 300000),
+        16000, 300000),
+    "C19": e2e(
+        "each run = one seeded call whose handler program panics (crash fault of the handler task) with nil / error / string / struct / "
+        "http.ErrAbortHandler at a seeded program point (before anything, between Sends, after the last Send) x 4 kinds x 3 protocols x position "
+        "of WithRecover among 0..3 other interceptors, plus non-panicking controls; the stub treats a panic leaving ServeHTTP as net/http does; "
+        "distinct = distinct scheduler-log hash among runs with >= 2 candidates",
+        16000, 100000),
 }
